@@ -46,10 +46,71 @@ class SkipSolve(BaseException):
     """Raised by an on_reward_phase callback: the case is outside what the check explores."""
 
 
-def solve(game, prune, sweeps=None, copy=True, on_reward_phase=None):
-    """StochasticGame(**game, prune_states=prune).solve() on a copy, under a sweep budget."""
+NOTES = set()          # class labels collected while a case is decided (runner.decide merges them into the verdict)
+
+
+def through_file(game):
+    """The game written down as the text of an input file and read back by the repository's own reader
+    (conditionalrewards.read_dict_from_file), the way every game reaches the solver from the command line.
+    Returns None when the description cannot take that road unchanged (shared list objects, or values
+    whose repr does not denote them)."""
+    import os
+    from . import boards
+    tl = game.get("transition_list")
+    if not isinstance(tl, list):
+        return None
+    inner = [id(l) for l in tl if isinstance(l, list)]
+    if len(set(inner)) < len(inner):
+        return None
+    loaded = file_roundtrip({"g": game})
+    return None if loaded is None else loaded["g"]
+
+
+def file_roundtrip(games_dict):
+    """A dict of games as the text of an input file, read back by the repository's reader; None when the
+    text would not denote the dict (values without a literal repr, shared objects are the caller's business)."""
+    import os
+    from . import boards
+    try:
+        text = repr(games_dict)
+        if "inf" in text or "nan" in text:
+            return None
+        back = eval(text, {"__builtins__": {}}, {})
+        if back != games_dict or repr(back) != text:
+            return None
+    except Exception:
+        return None
+    path = os.path.join(boards.scratch_dir(), "inputs", "__via_file__.py")
+    with open(path, "w") as f:
+        f.write(text)
+    try:
+        return repo().conditionalrewards.read_dict_from_file(path)
+    finally:
+        os.remove(path)
+
+
+def wants_file_route(game):
+    import hashlib
+    return hashlib.sha1(repr(game).encode()).digest()[0] % 4 == 0
+
+
+def solve(game, prune, sweeps=None, copy=True, on_reward_phase=None, via_file=None):
+    """StochasticGame(**game, prune_states=prune).solve() on a copy, under a sweep budget.  A quarter of the
+    games (chosen by a digest of the description) reach the solver through an input file and the repository's
+    reader instead of a plain copy."""
     r = repo()
     g = copy_game(game) if copy else game
+    if copy and (via_file or (via_file is None and wants_file_route(game))):
+        try:
+            loaded = through_file(game)
+        except Exception as e:
+            NOTES.add("input_file_route")
+            o = classify_exception(e)
+            o.sweeps = 0
+            return o
+        if loaded is not None:
+            g = loaded
+            NOTES.add("input_file_route")
     n = len(game["players"]) if hasattr(game.get("players"), "__len__") else 1
     with sweep_budget(r.tad, sweeps, n, on_reward_phase=on_reward_phase) as shim:
         try:
